@@ -19,6 +19,7 @@ import (
 	"net/http/httptest"
 	"os"
 	"path/filepath"
+	"reflect"
 	"sync"
 	"sync/atomic"
 	"time"
@@ -132,6 +133,22 @@ func (s *Store) SetRVBlob(ctx context.Context, ov *fdo.Voucher, to1d *cose.Sign1
 	err := s.DB.SetRVBlob(ctx, ov, to1d, exp)
 	tok, _ := s.DB.TokenFromContext(ctx)
 	s.J.Add(Effect{Kind: "SetRVBlob", Store: s.Name, GUID: gs(ov.Header.Val.GUID), Exp: exp.Unix(), Token: tok, Err: err != nil})
+	return err
+}
+
+// SetXSession journals whether tunnel keys are being stored (effect "KeysStored") and forwards.
+func (s *Store) SetXSession(ctx context.Context, suite kex.Suite, sess kex.Session) error {
+	hasKeys := false
+	if v := reflect.ValueOf(sess); v.Kind() == reflect.Pointer && !v.IsNil() {
+		if f := v.Elem().FieldByName("SEK"); f.IsValid() && f.Kind() == reflect.Slice && f.Len() > 0 {
+			hasKeys = true
+		}
+	}
+	err := s.DB.SetXSession(ctx, suite, sess)
+	if hasKeys {
+		tok, _ := s.DB.TokenFromContext(ctx)
+		s.J.Add(Effect{Kind: "KeysStored", Store: s.Name, Token: tok, Err: err != nil})
+	}
 	return err
 }
 
